@@ -60,10 +60,26 @@ func bigOf(s string) *big.Int {
 
 func holderName(h int) string { return fmt.Sprintf("sub-%d", h) }
 
+// Addresses are written into the case files relative to the case's base address, biased by 65536
+// (value v stands for base + v - 65536; Model/PoolCheck.v [unb] undoes it before the Model and the
+// acceptor see the trace).  A 128-bit literal costs coqc ~0.3 ms to type-check; offsets are small.
+var curBase = new(big.Int)
+
+const bias = 65536
+
+func rel(v *big.Int) string {
+	r := new(big.Int).Sub(v, curBase)
+	r.Add(r, big.NewInt(bias))
+	if r.Sign() < 0 {
+		panic(fmt.Sprintf("address %s is more than %d below the base %s", v, bias, curBase))
+	}
+	return r.String()
+}
+
 func opCoq(o Op) string {
-	a := o.A
-	if a == "" {
-		a = "0"
+	a := "0"
+	if o.A != "" {
+		a = rel(bigOf(o.A))
 	}
 	switch o.K {
 	case "alloc":
@@ -95,7 +111,7 @@ func opCoq(o Op) string {
 }
 
 // outputs
-func oUnit(v *big.Int) string { return "OUnit " + v.String() }
+func oUnit(v *big.Int) string { return "OUnit " + rel(v) }
 func oErr(e int) string        { return fmt.Sprintf("OErr %d", e) }
 func oHolder(h int) string     { return fmt.Sprintf("OHolder %d", h) }
 func oStats(al, tot uint64, util float64, hasUtil bool) string {
@@ -119,7 +135,7 @@ func oSnap(l []pair) string {
 	sort.Slice(l, func(i, j int) bool { return l[i].h < l[j].h })
 	var items []string
 	for _, p := range l {
-		items = append(items, fmt.Sprintf("(%d, %s)", p.h, p.u.String()))
+		items = append(items, fmt.Sprintf("(%d, %s)", p.h, rel(p.u)))
 	}
 	return "OSnap " + vh.List(items)
 }
@@ -155,6 +171,7 @@ func run(c Case) vh.Case {
 	if k == nil {
 		panic("unknown kind " + c.Kind)
 	}
+	curBase = bigOf(c.Base)
 	p, err := k.mk(c)
 	if err != nil {
 		panic(fmt.Sprintf("cannot build %s pool for %+v: %v", c.Kind, c, err))
